@@ -1,5 +1,6 @@
 let families : (string * (string list -> string)) list = [
   "tlv", Fam_tlv.run;
+  "frame", Fam_frame.run;
   "storage", Fam_storage.run;
   "db", Fam_storage.run_db;
   "crash", Fam_storage.run_crash;
